@@ -17,6 +17,9 @@ add("C07", MC, "vsched", "stateless model checking of the real code under a cont
 add("C10", MC, "vsched", "stateless model checking of the real code under a controlled scheduler: all interleavings x fault placements up to a preemption bound and a timer-deviation bound (iterative context bounding + happens-before fingerprint pruning)",
     "Every interleaving (P<=1,T<=1 quick; P<=2 thorough; completed bounds per scenario in the evidence) of ~110 small MapReduce instances (0-3 items, 1-2 workers, fan-out 0-2; MapReduce, MapReduceVoid, MapReduceChan, ForEach, Finish, FinishVoid) crossed with single faults and fault pairs (generator/mapper/reducer panic, cancel(err), cancel(nil), stalled mapper, early or missing reducer output, context deadline on the virtual clock, cancellation by another thread), run on go-zero's own core/mr rewritten onto the scheduler shim. Oracles from the statement: exactly-once mapping and complete reduction when nothing is cancelled, worker cap, justified error or re-raised user panic otherwise, no caller deadlock, no thread of the call alive after the user functions returned, never a runtime panic. Three genuine defect classes of the shutdown protocol are listed in known_findings.txt.",
     "Bounded to the listed instance sizes, fault menus and deviation bounds; sequential consistency; the shim's model of channels/select/sync/context (DESIGN 2.3, 2.9).", "DESIGN.md#c10")
+add("C11", MC, "vsched", "stateless model checking of the real code under a controlled scheduler: all interleavings of Add/Flush/Wait with ticks of the flush timer on a virtual clock, up to a preemption bound and a timer-deviation bound",
+    "Every interleaving (P<=2,T<=1 quick, P<=1 for 3+ threads; P<=3,T<=2 thorough; completed bounds per scenario in the evidence) of 1-2 producers x 1-3 Add calls, an optional Flush thread, Wait after or concurrently with the producers, ticks of the real flush ticker on the virtual clock (including the 11 idle ticks that make the background flusher quit, and its restart by the next Add) and a panicking callback, on PeriodicalExecutor, BulkExecutor and ChunkExecutor with thresholds 1-3, run on go-zero's own core/executors rewritten onto the scheduler shim. Oracles: every accepted task reaches the callback exactly once (by Wait for tasks added before it, by the end of the execution for all), Wait returns only after those callbacks returned, a panicking callback loses only its batch, no deadlock. One genuine defect class is listed in known_findings.txt.",
+    "Bounded to the listed thread counts and deviation bounds; sequential consistency; the shim's model of channels/sync/timers (DESIGN 2.3, 2.9); sqlx.BulkInserter only wires a BulkExecutor and is covered through it.", "DESIGN.md#c11")
 add("C12", MC, "seqx+vsched", "explicit-state breadth-first search over operation histories, each transition executed on the real TimingWheel driven to quiescence by the controlled scheduler, compared with a reference model",
     "All histories up to depth 6 (9 thorough) of SetTimer/MoveTimer/RemoveTimer/tick/Drain over 2 keys and delays of 1..2n+1 intervals on wheels of 1-4 (1-10 thorough) slots; in every reached state the set of timers fired by a tick (and delivered by Drain) must equal the reference's due set; states deduplicated by a white-box dump of the whole wheel.",
     "Internal goroutines of the wheel run under the default schedule to quiescence after each operation (their interleavings are not explored); delays are multiples (and one half-multiple) of the interval.", "DESIGN.md#c12")
